@@ -765,11 +765,11 @@ def product_stats(ctx, st, quick):
     s, r, q, v = rng.uniform(80, 120), rng.uniform(0.01, 0.06), rng.uniform(0.0, 0.03), rng.uniform(0.15, 0.35)
     model = BlackScholes(v)
     dc, qc = flat(vd, r), flat(vd, q)
-    for in_period in (False, True):
+    for in_period, acc_f in ((False, None), (True, rng.uniform(0.9, 1.1)), (True, rng.uniform(0.45, 0.6)), (True, rng.uniform(1.5, 1.9))):
         nobs = 12
         if in_period:
             sa, ed = vd.add_days(-146), vd.add_days(219)
-            acc = s * rng.uniform(0.9, 1.1)
+            acc = s * acc_f
         else:
             sa, ed = vd.add_days(73), vd.add_days(365)
             acc = None
@@ -803,6 +803,8 @@ def product_stats(ctx, st, quick):
                           option_type=ot.name, num_obs=nobs, stock_price=s, r=r, q=q, volatility=v, accrued_average=acc, num_paths=npth, seeds=sds[:4],
                           reference='independent simulation: arithmetic average of the n equally spaced observations after the start of averaging'
                                     + (' (remaining observations int(n*t/tau+0.5)+1 on (0,t], strike and notional rescaled for the accrued average)' if in_period else ''))
+                if meth != 'value_mc' and min(vals) < 0.0:      # the control-variate routine is judged by its (classified) t-test only
+                    ctx.violation(f'EquityAsianOption.{meth} returns a negative option value', dict(cs, value=float(min(vals))), clause='non-negative')
                 fid = None
                 if meth == 'value_mc':
                     # classifier of C19/asian-cv-continuous-geometric-control: the deviation is the difference between the
@@ -873,35 +875,120 @@ def product_stats(ctx, st, quick):
                       rho=rh, expiry_days=365, num_paths=10000, seeds=sds[:4], closed_form=ref), bias=2e-5 * k)
 
     # ---------------------------------------------------------------- lookbacks (discrete monitoring)
+    # strikes on BOTH sides of the running extreme (call K <= Smax and K > Smax, put K >= Smin and K < Smin: beyond it the
+    # max(.,0) floor binds), running extremes near and far from spot; value >= 0; payoff tied to the Lean functional
+    from financepy.models.gbm_process_simulator import get_paths_times
     s, r, q, v = rng.uniform(80, 120), rng.uniform(0.01, 0.06), rng.uniform(0.0, 0.03), rng.uniform(0.15, 0.3)
     dc, qc = flat(vd, r), flat(vd, q)
     nspy = 24
     up_, dn_ = ref_gbm(gen, NREF // 2, np.linspace(0, 1.0, nspy + 1), r - q, s, v)
+    lb_ops, lb_checks = [], []
     for ot in (CALL, PUT):
-        k = s * rng.uniform(0.95, 1.05)
-        smm_fixed = s * (rng.uniform(1.08, 1.25) if ot == CALL else rng.uniform(0.78, 0.93))
-        smm_float = s * (rng.uniform(0.8, 0.95) if ot == CALL else rng.uniform(1.05, 1.2))
+        fixed_cases = []
+        for side in ('inside', 'beyond', 'far-beyond'):
+            hist = s * (rng.uniform(1.03, 1.15) if ot == CALL else rng.uniform(0.85, 0.97))
+            if side == 'inside':
+                k = hist * (rng.uniform(0.85, 0.99) if ot == CALL else rng.uniform(1.01, 1.15))
+            elif side == 'beyond':
+                k = hist * (rng.uniform(1.03, 1.2) if ot == CALL else rng.uniform(0.8, 0.97))
+            else:
+                k = hist * (rng.uniform(1.5, 1.9) if ot == CALL else rng.uniform(0.45, 0.6))
+            fixed_cases.append((side, k, hist))
+        float_cases = [(side, None, s * (f if ot == CALL else 2.0 - f)) for side, f in (('at-spot', 1.0), ('near', rng.uniform(0.9, 0.98)), ('far', rng.uniform(0.6, 0.75)))]
+        for nm, cases in (('EquityFixedLookbackOption', fixed_cases), ('EquityFloatLookbackOption', float_cases)):
+            for side, k, hist in cases:
+                if nm == 'EquityFixedLookbackOption':
+                    opt = EquityFixedLookbackOption(ed, ot, k)
 
-        def pay_fixed(S, ot=ot, k=k, m=smm_fixed):
-            if ot == CALL:
-                return np.maximum(np.maximum(S.max(axis=1), m) - k, 0.0)
-            return np.maximum(k - np.minimum(S.min(axis=1), m), 0.0)
+                    def pay(S, ot=ot, k=k, m=hist):
+                        if ot == CALL:
+                            return np.maximum(np.maximum(S.max(axis=1), m) - k, 0.0)
+                        return np.maximum(k - np.minimum(S.min(axis=1), m), 0.0)
+                else:
+                    opt = EquityFloatLookbackOption(ed, ot)
 
-        def pay_float(S, ot=ot, m=smm_float):
-            if ot == CALL:
-                return np.maximum(S[:, -1] - np.minimum(S.min(axis=1), m), 0.0)
-            return np.maximum(np.maximum(S.max(axis=1), m) - S[:, -1], 0.0)
-        for nm, opt, pay, smm in (('EquityFixedLookbackOption', EquityFixedLookbackOption(ed, ot, k), pay_fixed, smm_fixed),
-                                  ('EquityFloatLookbackOption', EquityFloatLookbackOption(ed, ot), pay_float, smm_float)):
-            ref, ref_se = ref_estimate(pay, up_, dn_, math.exp(-r * 1.0))
-            sds = seeds_of(rng, M)
-            vals = [float(opt.value_mc(vd, s, dc, qc, v, smm, 6000, nspy, sd)) for sd in sds]
-            n_eval += M
-            st.ttest(f'lookback.{nm}', f'{nm}.value_mc: mean over seeds differs from an independent simulation of the documented lookback payoff '
-                     '(extremum over the monitoring dates and the running extremum)', vals, ref,
-                     dict(fn=f'{nm}.value_mc', option_type=ot.name, strike=k, stock_price=s, r=r, q=q, volatility=v, stock_min_max=smm, num_paths=6000,
-                          num_steps_per_year=nspy, expiry_days=365, seeds=sds[:4]), ref_se=ref_se, bias=1e-9 * s)
+                    def pay(S, ot=ot, m=hist):
+                        if ot == CALL:
+                            return np.maximum(S[:, -1] - np.minimum(S.min(axis=1), m), 0.0)
+                        return np.maximum(np.maximum(S.max(axis=1), m) - S[:, -1], 0.0)
+                ref, ref_se = ref_estimate(pay, up_, dn_, math.exp(-r * 1.0))
+                sds = seeds_of(rng, M)
+                vals = [float(opt.value_mc(vd, s, dc, qc, v, hist, 6000, nspy, sd)) for sd in sds]
+                n_eval += M
+                cs = dict(fn=f'{nm}.value_mc', option_type=ot.name, strike=k, stock_price=s, r=r, q=q, volatility=v, stock_min_max=hist, num_paths=6000,
+                          num_steps_per_year=nspy, expiry_days=365, seeds=sds[:4], strike_vs_running_extreme=side)
+                if min(vals) < 0.0:
+                    ctx.violation(f'{nm}.value_mc returns a negative option value', dict(cs, seed=sds[int(np.argmin(vals))], value=float(min(vals))), clause='non-negative')
+                st.ttest(f'lookback.{nm}.{side}', f'{nm}.value_mc: mean over seeds differs from an independent simulation of the documented lookback payoff '
+                         '(extremum over the monitoring dates and the running extremum, floored at zero)', vals, ref, cs, ref_se=ref_se, bias=1e-9 * s)
+                # tie to the Lean payoff functional on the very paths the routine simulates (same seed => same paths)
+                sd0 = sds[0]
+                nts = int(1.0 * nspy)
+                _, S_ = get_paths_times(200, nts, 1.0, float(dc.cc_rate(ed) - qc.cc_rate(ed)), s, v, sd0)
+                v200 = float(opt.value_mc(vd, s, dc, qc, v, hist, 200, nspy, sd0))
+                kind = 'FIX' if nm == 'EquityFixedLookbackOption' else 'FLT'
+                lb_ops.append(f'LBK {kind} {1 if ot == CALL else 0} {nts + 1} {fl([k if k is not None else 0.0, hist, dc.df(ed)])} {fl(S_)}')
+                lb_checks.append((v200, dict(cs, num_paths=200, seed=sd0)))
+    try:
+        outs = exedriver.run('c19driver', 'C19', lb_ops, par=False) if ctx.model_ok else None
+    except C.DriverError as e:
+        outs = None
+        ctx.broke(f'model driver failed on the lookback payoff ops: {str(e)[:200]}')
+    if outs is not None:
+        worst = 0.0
+        for o, (v200, cs) in zip(outs, lb_checks):
+            m_ = parse(o)
+            e_ = relerr(m_, [v200]) if m_ is not None and abs(v200) > 1e-300 else (0.0 if m_ is not None and abs(m_[0] - v200) <= 1e-12 else float('inf'))
+            worst = max(worst, e_)
+            if not e_ <= TOL_MODEL:
+                ctx.violation(f'{cs["fn"]}: the returned value is not df * mean of the documented payoff functional (Lean model, theorems '
+                              'fixedLookbackPayoff_documented / _nonneg) on the paths it simulates', dict(cs, returned=v200, model=None if m_ is None else float(m_[0])),
+                              clause='payoff-functional')
+        ctx.cov['lookback_payoff_model_worst_rel'] = float(f'{worst:.2e}')
+        ctx.count('model:lookback_payoff', len(lb_checks), len(lb_checks))
+
+    # ---------------------------------------------------------------- barrier already touched at inception (in = vanilla, out = 0)
+    sB, rB, qB, vB = rng.uniform(80, 120), rng.uniform(0.01, 0.06), rng.uniform(0.0, 0.03), rng.uniform(0.15, 0.3)
+    kB = sB * rng.uniform(0.95, 1.05)
+    for bt in EquityBarrierTypes:
+        down = 'DOWN' in bt.name
+        bB = sB * (rng.uniform(1.0, 1.1) if down else rng.uniform(0.9, 1.0))       # spot already beyond the barrier
+        opt = EquityBarrierOption(ed, kB, bt, bB, 24)
+        call = bt.name.endswith('CALL')
+        ref = bs_closed(sB, 1.0, kB, rB, qB, vB, call) if '_IN_' in bt.name else 0.0
+        sds = seeds_of(rng, M)
+        vals = [float(opt.value_mc(1.0, kB, bt.value, bB, 1.0, sB, rB, ProcessTypes.GBM, (sB, rB - qB, vB, FinGBMNumericalScheme.ANTITHETIC), 24, 4000, sd)) for sd in sds]
+        n_eval += M
+        cs = dict(fn='EquityBarrierOption.value_mc', t=1.0, k=kB, opt_type=bt.name, b=bB, s=sB, r=rB, drift=rB - qB, volatility=vB, num_ann_obs=24, num_paths=4000,
+                  seeds=sds[:4], region='spot already beyond the barrier')
+        if min(vals) < 0.0:
+            ctx.violation('EquityBarrierOption.value_mc returns a negative option value', dict(cs, value=float(min(vals))), clause='non-negative')
+        if '_IN_' in bt.name:
+            st.ttest('barrier.already-knocked-in', 'EquityBarrierOption.value_mc: knock-in option with the barrier already touched is not the vanilla option', vals, ref, cs,
+                     bias=2e-7 * sB)
+        elif max(abs(x) for x in vals) != 0.0:
+            ctx.violation('EquityBarrierOption.value_mc: knock-out option with the barrier already touched is not worthless', dict(cs, value=vals[0]), clause='unbiased')
     ctx.count('value_mc:exotics', n_eval, n_eval, sample={'fn': 'EquityBarrierOption.value_mc', 'seeds_per_case': M, 'reference_paths': NREF})
+
+
+_cir_sampler = None
+
+
+def cir_draw_sampler(CIR):
+    global _cir_sampler
+    if _cir_sampler is None:
+        from numba import njit
+        draw = CIR.draw
+
+        @njit
+        def sample(rt, a, b, sg, dt, n, seed):
+            np.random.seed(seed)
+            out = np.empty(n)
+            for i in range(n):
+                out[i] = draw(rt, a, b, sg, dt)
+            return out
+        _cir_sampler = sample
+    return _cir_sampler
 
 
 # ================================================================================================ short rates
@@ -936,19 +1023,64 @@ def rates_stats(ctx, st, quick):
             sq = (rT[:npth] - mref) ** 2
             st.ztest(f'vasicek.paths.var.{scheme}', 'get_vasicek_paths: terminal variance differs from the analytic variance', sq, vref, cs,
                      bias=3.0 * a / nas * vref, clause='variance')
-        # ---- CIR
+        # ---- CIR zero price: every scheme enum x parameter sets on both sides of d = 4ab/sigma^2 = 1 (and d = 1 exactly: the
+        # EXACT scheme switches between normal+chi-square(d-1) and the Poisson mixture there).  Reference = analytic zero price of
+        # the horizon the routine integrates (it starts rsum at r0 and adds n-1 trapezoids: (n-1)*dt plus half a step at r0).
+        for regime in ('d>1', 'd=1', 'd<1'):
+            a, b, r0 = rng.uniform(0.3, 1.0), rng.uniform(0.03, 0.07), rng.uniform(0.02, 0.07)
+            if regime == 'd>1':
+                sg = math.sqrt(4 * a * b / rng.uniform(2.0, 12.0))
+            elif regime == 'd=1':
+                a, b, sg = 0.2, 0.05, 0.2
+            else:
+                sg = math.sqrt(4 * a * b / rng.uniform(0.4, 0.8))
+            dpar = 4 * a * b / (sg * sg)
+            t = 2.0
+            for sc in (1, 2, 3, 4, 5):
+                dt = 0.01 if sc != 5 else 0.05
+                npth = 2000 if sc != 5 else 1000
+                ns = int(t / dt)
+                ref = float(CIR.zero_price(r0, a, b, sg, (ns - 1) * dt)) * math.exp(-0.5 * r0 * dt)
+                sds = seeds_of(rng, M)
+                vals = [float(CIR.zero_price_mc(r0, a, b, sg, t, dt, npth, sd, sc)) for sd in sds]
+                n_eval += M
+                # documented discretisation bias: trapezoid O(dt) remainder 0.3*dt*max(r0,b); the moment-truncating schemes lose accuracy
+                # when the origin is accessible (d <= 1): Euler/lognormal/Milstein 1e-3, Kahl-Jaeckel (1e-8 floor) 6e-3, relative
+                bias = 0.3 * dt * max(r0, b) * ref
+                if dpar <= 1.0 + 1e-12 and sc != 5:
+                    bias += (6e-3 if sc == 4 else 1e-3) * ref
+                st.ttest(f'cir.zero_price_mc.{sc}.{regime}', 'cir_montecarlo.zero_price_mc: mean over seeds is not within bound of the analytic zero price', vals, ref,
+                         dict(fn='cir_montecarlo.zero_price_mc', r0=r0, a=a, b=b, sigma=sg, t=t, dt=dt, num_paths=npth, scheme=sc, seeds=sds[:4], d=dpar,
+                              analytic_zero_price_t=float(CIR.zero_price(r0, a, b, sg, t)), analytic_for_integrated_horizon=ref), bias=bias, clause='zero-price')
+        # ---- CIR exact transition `draw`: conditional mean and variance are exact for every dt (both branches, d = 1 exactly)
+        sampler = cir_draw_sampler(CIR)
+        for regime in ('d>1', 'd=1', 'd<1', 'd>1 (a=0.5,b=0.05,sigma=0.1)'):
+            a, b = rng.uniform(0.3, 1.0), rng.uniform(0.03, 0.07)
+            if regime == 'd>1':
+                sg = math.sqrt(4 * a * b / rng.uniform(1.2, 12.0))
+            elif regime == 'd=1':
+                a, b, sg = 0.2, 0.05, 0.2
+            elif regime == 'd<1':
+                sg = math.sqrt(4 * a * b / rng.uniform(0.3, 0.9))
+            else:
+                a, b, sg = 0.5, 0.05, 0.10
+            for rt, dt in ((rng.uniform(0.02, 0.08), rng.choice([0.02, 0.1])), (rng.uniform(0.0005, 0.005), 0.25), (rng.uniform(0.03, 0.1), 1.0)):
+                seed = rng.randint(1, 2 ** 31 - 1)
+                x = sampler(rt, a, b, sg, dt, 200000, seed)
+                n_eval += 1
+                e = math.exp(-a * dt)
+                mref = rt * e + b * (1 - e)
+                vref = rt * sg * sg / a * (e - e * e) + b * sg * sg / (2 * a) * (1 - e) ** 2
+                cs = dict(fn='cir_montecarlo.draw', rt=rt, a=a, b=b, sigma=sg, dt=dt, d=4 * a * b / (sg * sg), num_draws=200000, seed=seed,
+                          how='np.random.seed(seed) then 200000 successive draw(rt, a, b, sigma, dt) inside one @njit loop')
+                st.ztest(f'cir.draw.mean.{regime[:3]}', 'cir_montecarlo.draw: sample mean of r(t+dt) | r(t) differs from the exact CIR conditional mean '
+                         'r e^{-a dt} + b (1 - e^{-a dt}) (theorem cir_exact_mean)', x, mref, cs, clause='first-moment')
+                st.ztest(f'cir.draw.var.{regime[:3]}', 'cir_montecarlo.draw: sample variance of r(t+dt) | r(t) differs from the exact CIR conditional variance',
+                         (x - mref) ** 2, vref, cs, clause='variance')
+                if float(x.min()) < 0.0:
+                    ctx.violation('cir_montecarlo.draw returns a negative rate', dict(cs, minimum=float(x.min())), clause='non-negative')
         a, b, sg, r0 = rng.uniform(0.3, 1.0), rng.uniform(0.03, 0.07), rng.uniform(0.03, 0.10), rng.uniform(0.02, 0.07)
         t = rng.choice([1.0, 2.0])
-        ref = float(CIR.zero_price(r0, a, b, sg, t))
-        for sc in (1, 2, 3, 4, 5):
-            dt = 0.01 if sc != 5 else 0.02
-            npth = 2000 if sc != 5 else 400
-            sds = seeds_of(rng, M)
-            vals = [float(CIR.zero_price_mc(r0, a, b, sg, t, dt, npth, sd, sc)) for sd in sds]
-            n_eval += M
-            st.ttest(f'cir.zero_price_mc.{sc}', 'cir_montecarlo.zero_price_mc: mean over seeds is not within bound of the analytic zero price', vals, ref,
-                     dict(fn='cir_montecarlo.zero_price_mc', r0=r0, a=a, b=b, sigma=sg, t=t, dt=dt, num_paths=npth, scheme=sc, seeds=sds[:4], analytic=ref),
-                     bias=dt * max(r0, b) * ref, clause='zero-price')
         for sc in (1, 2, 3, 4):
             seed = rng.randint(1, 2 ** 31 - 1)
             npth, nas = 20000, 100
